@@ -1,6 +1,193 @@
 package props
 
-import "sidecheck/core"
+import (
+	"encoding/json"
+	"fmt"
+	"os"
+	"os/exec"
+	"path/filepath"
+	"sort"
+	"strings"
+	"sync"
 
-// SelfCheck runs the committed variant catalogue for a property (thorough tier).
-func SelfCheck(id, dir, verif string, rep *core.Report) {}
+	"sidecheck/core"
+)
+
+// SelfCheck validates the checker itself against the committed variant
+// catalogue (thorough tier): every seeded breaking change of this property
+// (/verif/seeded/<id>-*/patch.diff), applied to a scratch copy of the subject
+// outside /repo and /verif and analysed in its own process, must be reported;
+// every benign (behaviour-preserving) variant that lists this property
+// (/verif/variants/benign/*/) must be silent. Results are recorded in the
+// evidence; they never change the verdict about /repo (a missed seed is a
+// weakness of the checker, not a violation of the property by the subject).
+func SelfCheck(id, dir, verif string, rep *core.Report) {
+	// skip when the base tree already has a non-known violation
+	for _, o := range rep.Obligations {
+		if o.Status == core.Violated || o.Status == core.Undecided {
+			rep.List("selfcheck", "skipped: the analysed tree already has a violation")
+			return
+		}
+	}
+	self, err := os.Executable()
+	if err != nil {
+		rep.List("selfcheck", "skipped: cannot locate own executable: "+err.Error())
+		return
+	}
+	type variant struct {
+		name    string
+		patch   string
+		breaker bool
+	}
+	var vs []variant
+	if ds, err := filepath.Glob(filepath.Join(verif, "seeded", id+"-*", "patch.diff")); err == nil {
+		for _, p := range ds {
+			vs = append(vs, variant{name: filepath.Base(filepath.Dir(p)), patch: p, breaker: true})
+		}
+	}
+	if ds, err := filepath.Glob(filepath.Join(verif, "variants", "benign", "*", "patch.diff")); err == nil {
+		for _, p := range ds {
+			var meta struct {
+				Properties []string `json:"properties"`
+			}
+			if b, err := os.ReadFile(filepath.Join(filepath.Dir(p), "meta.json")); err == nil {
+				_ = json.Unmarshal(b, &meta)
+			}
+			for _, q := range meta.Properties {
+				if q == id {
+					vs = append(vs, variant{name: filepath.Base(filepath.Dir(p)), patch: p, breaker: false})
+				}
+			}
+		}
+	}
+	sort.Slice(vs, func(i, j int) bool { return vs[i].name < vs[j].name })
+	if len(vs) == 0 {
+		rep.List("selfcheck", "no variants for this property in the catalogue")
+		return
+	}
+	tmpRoot, err := os.MkdirTemp("", "sidecheck-variants-")
+	if err != nil {
+		rep.List("selfcheck", "skipped: "+err.Error())
+		return
+	}
+	defer os.RemoveAll(tmpRoot)
+	type result struct {
+		v      variant
+		status string // detected | missed | silent | false-alarm | skipped
+		detail string
+	}
+	results := make([]result, len(vs))
+	sem := make(chan struct{}, 6)
+	var wg sync.WaitGroup
+	for i, v := range vs {
+		wg.Add(1)
+		go func(i int, v variant) {
+			defer wg.Done()
+			sem <- struct{}{}
+			defer func() { <-sem }()
+			d := filepath.Join(tmpRoot, v.name)
+			repo := filepath.Join(d, "repo")
+			vd := filepath.Join(d, "verif")
+			defer os.RemoveAll(d)
+			_ = os.MkdirAll(repo, 0o755)
+			_ = os.MkdirAll(vd, 0o755)
+			if err := copyTracked(dir, repo); err != nil {
+				results[i] = result{v, "skipped", "copy failed: " + err.Error()}
+				return
+			}
+			if b, err := os.ReadFile(filepath.Join(verif, "known_findings.json")); err == nil {
+				_ = os.WriteFile(filepath.Join(vd, "known_findings.json"), b, 0o644)
+			}
+			ap := exec.Command("git", "apply", "--whitespace=nowarn", v.patch)
+			ap.Dir = repo
+			if out, err := ap.CombinedOutput(); err != nil {
+				pp := exec.Command("patch", "-p1", "-s", "-i", v.patch)
+				pp.Dir = repo
+				if out2, err2 := pp.CombinedOutput(); err2 != nil {
+					results[i] = result{v, "skipped", "patch does not apply to the current tree: " + firstLine(string(out)) + " / " + firstLine(string(out2))}
+					return
+				}
+			}
+			cmd := exec.Command(self, "-property", id, "-tier", "quick", "-dir", repo, "-verif", vd)
+			cmd.Env = append(os.Environ(), "VERIF_TIER=quick")
+			out, _ := cmd.CombinedOutput()
+			violated := strings.Contains(string(out), "\nVIOLATION property=") || strings.HasPrefix(string(out), "VIOLATION property=")
+			var ids []string
+			for _, ln := range strings.Split(string(out), "\n") {
+				if strings.HasPrefix(ln, "VIOLATED ") || strings.HasPrefix(ln, "UNDECIDED ") {
+					f := strings.Fields(ln)
+					if len(f) > 1 {
+						ids = append(ids, f[1])
+					}
+				}
+			}
+			switch {
+			case v.breaker && violated:
+				results[i] = result{v, "detected", strings.Join(ids, " ")}
+			case v.breaker:
+				results[i] = result{v, "missed", "the check stayed silent on this seeded change"}
+			case violated:
+				results[i] = result{v, "false-alarm", strings.Join(ids, " ")}
+			default:
+				results[i] = result{v, "silent", ""}
+			}
+		}(i, v)
+	}
+	wg.Wait()
+	counts := map[string]int{}
+	for _, r := range results {
+		counts[r.status]++
+		kind := "benign"
+		if r.v.breaker {
+			kind = "seeded"
+		}
+		rep.List("selfcheck variants", fmt.Sprintf("%s %s: %s %s", kind, r.v.name, r.status, r.detail))
+		if r.status == "missed" || r.status == "false-alarm" {
+			fmt.Printf("SELFCHECK-WARNING property=%s variant=%s %s %s\n", id, r.v.name, r.status, r.detail)
+		}
+	}
+	for k, n := range counts {
+		rep.SetCount("selfcheck "+k, n)
+	}
+	rep.SetCount("selfcheck variants run", len(results))
+}
+
+func firstLine(s string) string {
+	if i := strings.Index(s, "\n"); i >= 0 {
+		return s[:i]
+	}
+	return s
+}
+
+// copyTracked copies the working tree of src (everything except .git) into dst.
+func copyTracked(src, dst string) error {
+	var files []string
+	_ = filepath.Walk(src, func(p string, info os.FileInfo, err error) error {
+		if err != nil {
+			return nil
+		}
+		if info.IsDir() {
+			if info.Name() == ".git" {
+				return filepath.SkipDir
+			}
+			return nil
+		}
+		rel, _ := filepath.Rel(src, p)
+		files = append(files, rel)
+		return nil
+	})
+	for _, f := range files {
+		b, err := os.ReadFile(filepath.Join(src, f))
+		if err != nil {
+			continue // deleted in the working tree
+		}
+		t := filepath.Join(dst, f)
+		if err := os.MkdirAll(filepath.Dir(t), 0o755); err != nil {
+			return err
+		}
+		if err := os.WriteFile(t, b, 0o644); err != nil {
+			return err
+		}
+	}
+	return nil
+}
